@@ -155,6 +155,11 @@ bool Instance::parse_pretend_valid_expr(const char* expr) {
                 fprintf(stderr, "parse error (missing signature) near %s\n", p);
                 return false;
             }
+            if (c == p) {
+                // "sig:" followed by nothing: a signature without its pubkey (also in the middle of the list)
+                fprintf(stderr, "parse error (missing pubkey after a signature) near %s\n", p);
+                return false;
+            }
             got_sig = false;
             // v.do_hash160();
             // keyid = uint160(v.data_value());
